@@ -1,9 +1,226 @@
-import RulioModel.Spec
+import RulioProofs.StateC02
 
-/-! # C02 — fact search exactness (placeholder obligations until the State proofs land) -/
+/-! # C02 — fact search returns exactly the stored facts that match; get; ids (property theorems only)
 
-/-- the term index refuses an empty term list; `SearchForIDs` therefore scans every fact in that case -/
-theorem ti_search_no_terms (ti : TI) : TI.search ti [] = .error "noTerms" := rfl
+Model: `RulioModel/State.lean` (`ExtractTerms`, `TermIndex`, `IndexedState.search`, `LinearState.search`, `Get`,
+`Add`), `RulioModel/Fact.lean` (`PrepareFact`, `GenId`); specification `specSearch` in `RulioModel/Spec.lean`;
+invariants, fragments and the budget `St.fuelOK` in `RulioModel/StateInv.lean`.
 
-/-- a single term: the candidates are exactly the ids listed under it -/
-theorem ti_search_single (ti : TI) (t : String) : TI.search ti [t] = .ok ((amGet ti t).getD []) := rfl
+Hypotheses used below:
+* `WF s` — holds for every reachable state (`reachable_wf` in `Props/C08.lean`): unique ids, term-index completeness;
+* `NoneExpired s now` — no stored fact is expired at `now` (an expired candidate is purged by a cascade first);
+* `TermOK p` — the pattern has no optional variables and no variable keys (known findings outside);
+* `MatcherSoundOn s.facts p` — **explicit hypothesis, provided by C05** (`match_sound`): whenever the matcher
+  returns a binding for `p` on a stored fact, some binding lays `p` over that fact (`pmv`). -/
+
+/-! ## the term index is a complete candidate filter -/
+
+/-- **pmv_terms_subset.** If the pattern (without variable keys) lies over the fact, every term extracted from the
+pattern is a term of the fact: keys are present, constants equal, array elements are matched injectively; values
+under `rule` and under keys ending in `!` are skipped on both sides; variables contribute no term. -/
+theorem pmv_terms_subset (σ : Bs) (p f : Obj) (hp : pmv σ (.obj p) (.obj f) = true) (hok : TermOK p = true) :
+    ∀ t, t ∈ extractTerms p → t ∈ extractTerms f := by
+  intro t ht
+  have hnv : noVarKeysO p = true := by simp only [TermOK, Bool.and_eq_true] at hok; exact hok.1
+  rw [sPmv_obj] at hp
+  rw [mem_extractTerms] at ht ⊢
+  exact pmv_termsO σ p f f hnv hp t ht
+
+/-- **ti_complete.** Under term-index completeness, `TermIndex.Search` returns every stored id whose fact carries
+all the searched terms (stale extra candidates are allowed and re-matched away). -/
+theorem ti_complete (s : St) (p : Obj) (htiok : TIOK s) (hne : extractTerms p ≠ []) (id : String) (fact : Obj)
+    (hm : (id, fact) ∈ s.facts) (hsub : ∀ t, t ∈ extractTerms p → t ∈ extractTerms fact) :
+    ∃ ids, TI.search s.ti (extractTerms p) = .ok ids ∧ id ∈ ids :=
+  TI.search_complete hne (fun t ht => htiok id fact hm t (hsub t ht))
+
+/-- the index is kept complete by every history: `WF` contains `TIOK` for indexed states -/
+theorem termindex_inv (ops : List StOp) : TIOK (St.run { kind := .indexed } ops) :=
+  (run_wf (wf_empty .indexed) ops).tiok (run_kind _ ops)
+
+/-! ## search = specification -/
+
+/-- **Linear search is the specification**, literally: same (id, bindings) pairs in the order of the stored facts,
+and the same error when the matcher fails on some fact — with the corrected budget or any larger one, and with the
+model's present budget `St.fuel`. -/
+theorem search_linear_exact (s : St) (now : Int) (p : Obj) (hk : s.kind = .linear) (hwf : WF s)
+    (hne : NoneExpired s now) :
+    (∃ r, s.searchOK p now = (s, r) ∧ r.map projRes = specSearch s.facts p now) ∧
+    (∃ r, s.search p now = (s, r) ∧ r.map projRes = specSearch s.facts p now) :=
+  ⟨searchWith_linear hk hwf hne p (Nat.le_refl _), search_linear_fuel hk hwf hne p⟩
+
+/-- **search_exact_partial (indexed).** For a pattern in `TermOK`, under the C05 hypothesis `MatcherSoundOn`, whenever
+the specification does not fail, the indexed search returns exactly the specification's (id, bindings) pairs —
+no more, no fewer — up to order, and leaves the state unchanged.
+*Partial* because (1) matcher soundness is a hypothesis here, (2) if the matcher fails on a stored fact that is not a
+candidate, the specification (and the linear state) report the error while the indexed search may succeed; see
+`search_indexed_error`. Full statement intended: the same without `hspec`, with equality of errors. -/
+theorem search_exact_partial (s : St) (now : Int) (p : Obj) (R : List (String × List Bs))
+    (hk : s.kind = .indexed) (hwf : WF s) (hne : NoneExpired s now) (hterm : TermOK p = true)
+    (hsound : MatcherSoundOn s.facts p) (hspec : specSearch s.facts p now = .ok R) :
+    ∃ R', s.searchOK p now = (s, .ok R') ∧ (projRes R').Perm R :=
+  searchWith_indexed hk hwf hne hterm hsound hspec (Nat.le_refl _)
+
+/-- an error of the indexed search is an error of the specification (not conversely) -/
+theorem search_indexed_error (s : St) (now : Int) (p : Obj) (e : LErr)
+    (hk : s.kind = .indexed) (hwf : WF s) (hne : NoneExpired s now) (hterm : TermOK p = true)
+    (hsound : MatcherSoundOn s.facts p) (herr : (s.searchOK p now).2 = .error e) :
+    ∃ e', specSearch s.facts p now = .error e' :=
+  searchWith_indexed_err hk hwf hne hterm hsound (Nat.le_refl _) herr
+
+/-- **The two state kinds agree**: on the same stored facts, an indexed and a linear state return the same
+(id, bindings) pairs up to order (inside the fragment, when the matcher does not fail). -/
+theorem search_kinds_agree (si sl : St) (now : Int) (p : Obj) (R : List (String × List Bs))
+    (hki : si.kind = .indexed) (hkl : sl.kind = .linear) (hfacts : si.facts = sl.facts)
+    (hwi : WF si) (hwl : WF sl) (hni : NoneExpired si now) (hterm : TermOK p = true)
+    (hsound : MatcherSoundOn si.facts p) (hspec : specSearch si.facts p now = .ok R) :
+    ∃ Ri Rl, si.searchOK p now = (si, .ok Ri) ∧ sl.searchOK p now = (sl, .ok Rl) ∧ (projRes Ri).Perm (projRes Rl) := by
+  obtain ⟨Ri, h1, h2⟩ := search_exact_partial si now p R hki hwi hni hterm hsound hspec
+  have hnl : NoneExpired sl now := fun e he => hni e (hfacts ▸ he)
+  obtain ⟨r, h3, h4⟩ := (search_linear_exact sl now p hkl hwl hnl).1
+  rw [← hfacts, hspec] at h4
+  cases r with
+  | error e => cases h4
+  | ok Rl =>
+    simp only [Except.map] at h4
+    injection h4 with h4
+    exact ⟨Ri, Rl, h1, h3, h4 ▸ h2⟩
+
+/-- the budget is irrelevant for `search` too: any budget ≥ `St.fuelOK s` gives the result of `searchOK` -/
+theorem search_fuel_irrelevant (s : St) (now : Int) (p : Obj) (hne : NoneExpired s now) (g : Nat) (hg : s.fuelOK ≤ g) :
+    s.searchWith g p now = s.searchOK p now := by
+  simp only [St.searchWith, St.searchOK]
+  cases s.kind with
+  | indexed => simp only; rw [isearch_eq_ispec hne p hg, isearch_eq_ispec hne p (Nat.le_refl _)]
+  | linear => simp only; rw [lsearch_eq_lspec hne p hg, lsearch_eq_lspec hne p (Nat.le_refl _)]
+
+/-! ## get returns the last write -/
+
+/-- **get_last_write (1).** After a successful `add`, the id holds the prepared fact (for the indexed state: with the
+rule body as `ExtractRule` leaves it), and `get` returns it as long as it has not expired. -/
+theorem get_after_add (s : St) (given : String) (x : Obj) (now now' : Int) (id : String)
+    (h : (s.add given x now).2 = .ok id) :
+    ∃ fact, amGet (s.add given x now).1.facts id = some fact ∧
+      (∃ m x', prepareFact given s.freshId x now = .ok (id, m, x') ∧
+        (fact = m ∨ ∃ rule, extractRule m false = .ok (rule, fact))) ∧
+      (checkExpiration fact now' = .ok false → (s.add given x now).1.get id now' = ((s.add given x now).1, .ok fact)) := by
+  rcases add_shape s given x now with ⟨e, he, _⟩ | ⟨id', fact, hok, ha⟩
+  · rw [he] at h; cases h
+  · rw [hok] at h; injection h with h; subst h
+    have hg : amGet (s.add given x now).1.facts id' = some fact := by rw [ha.facts, amGet_amSet_st]; simp
+    exact ⟨fact, hg, ha.prep, fun hx => get_of_present hg hx⟩
+
+/-- **get_last_write (2).** An `add` (successful or not) does not change what any other id holds;
+a failed `add` changes no fact at all. -/
+theorem get_other_after_add (s : St) (given : String) (x : Obj) (now : Int) :
+    (∀ id, (s.add given x now).2 = .ok id → ∀ id', id' ≠ id →
+      amGet (s.add given x now).1.facts id' = amGet s.facts id') ∧
+    (∀ e, (s.add given x now).2 = .error e → (s.add given x now).1.facts = s.facts) := by
+  rcases add_shape s given x now with ⟨e, he, hf⟩ | ⟨id', fact, hok, ha⟩
+  · exact ⟨fun id h => (by rw [he] at h; cases h), fun _ _ => hf.facts⟩
+  · refine ⟨fun id h id' hne => ?_, fun e h => (by rw [hok] at h; cases h)⟩
+    rw [hok] at h; injection h with h; subst h
+    rw [ha.facts, amGet_amSet_st, if_neg hne]
+
+/-- **get_last_write (3).** After a `rem id` that returned without error (either budget) the id is gone:
+`get` answers not-found. -/
+theorem get_after_rem (s s' : St) (id : String) (now now' : Int) (b : Bool)
+    (h : s.remOK id now = (s', .ok b) ∨ s.rem id now = (s', .ok b)) :
+    s'.get id now' = (s', .error "notFound") := by
+  rcases h with h | h
+  · exact get_of_absent (remWith_gone (g := s.fuelOK) h)
+  · exact get_of_absent (rem_gone h)
+
+/-- **get_last_write (4).** `get` on a stored, unexpired fact returns it and changes nothing; on an absent id it
+answers not-found (both kinds). -/
+theorem get_reads (s : St) (id : String) (now : Int) :
+    (∀ fact, amGet s.facts id = some fact → checkExpiration fact now = .ok false → s.get id now = (s, .ok fact)) ∧
+    (amGet s.facts id = none → s.get id now = (s, .error "notFound")) :=
+  ⟨fun _ hg hx => get_of_present hg hx, fun hg => get_of_absent hg⟩
+
+/-! ## ids -/
+
+/-- **ids_kept_or_fresh (GenId).** A property fact gets the canonical id `!id.prop`; otherwise a caller-supplied
+non-empty id that is not variable-looking is kept; otherwise the fresh id is used; a variable-looking id is rejected. -/
+theorem genId_cases (x : Obj) (given fresh : String) :
+    (∀ pid prop v, parseProp x = .ok (some (pid, prop, v)) → genId x given fresh = .ok ("!" ++ pid ++ "." ++ prop)) ∧
+    (parseProp x = .ok none → given ≠ "" → isVar given = false → genId x given fresh = .ok given) ∧
+    (parseProp x = .ok none → isVar fresh = false → genId x "" fresh = .ok fresh) ∧
+    (parseProp x = .ok none → given ≠ "" → isVar given = true → genId x given fresh = .error "badIdVar") := by
+  refine ⟨?_, ?_, ?_, ?_⟩
+  · intro pid prop v h; simp [genId, h, bind, Except.bind, genPropId, pure, Except.pure]
+  · intro h hg hv; simp [genId, h, bind, Except.bind, hg, hv, pure, Except.pure]
+  · intro h hv; simp [genId, h, bind, Except.bind, hv, pure, Except.pure]
+  · intro h hg hv; simp [genId, h, bind, Except.bind, hg, hv]
+
+/-- **ids_kept_or_fresh (Add).** The id under which a successful `add` stores the fact is: the canonical property id
+for a property fact; the caller's id when one was given; the state's fresh id when none was given — then the fresh
+counter advances, and for a state satisfying `FreshOK` (every reachable state, `reachable_fresh`) that id was not in
+use. It is never variable-looking. -/
+theorem ids_kept_or_fresh (s : St) (given : String) (x : Obj) (now : Int) (id : String)
+    (h : (s.add given x now).2 = .ok id) :
+    isVar id = false ∧
+    (∀ pid prop v, parseProp x = .ok (some (pid, prop, v)) → id = "!" ++ pid ++ "." ++ prop) ∧
+    (parseProp x = .ok none → given ≠ "" → id = given) ∧
+    (parseProp x = .ok none → given = "" →
+      id = s.freshId ∧ (s.add given x now).1.fresh = s.fresh + 1 ∧ (FreshOK s → amGet s.facts id = none)) := by
+  have hgen := add_id_genId h
+  refine ⟨genId_isVar hgen, ?_, ?_, ?_⟩
+  · intro pid prop v hp
+    rcases genId_ok hgen with ⟨pid', prop', v', hp', rfl⟩ | ⟨hp', _, _⟩
+    · rw [hp] at hp'; injection hp' with hp'; injection hp' with hp'
+      injection hp' with h1 h2; injection h2 with h2 h3
+      subst h1; subst h2; simp [genPropId]
+    · rw [hp] at hp'; cases hp'
+  · intro hp hg
+    rcases genId_ok hgen with ⟨pid', prop', v', hp', _⟩ | ⟨_, hid, _⟩
+    · rw [hp] at hp'; cases hp'
+    · simpa [hg] using hid
+  · intro hp hg
+    subst hg
+    have hid : id = s.freshId := by
+      rcases genId_ok hgen with ⟨pid', prop', v', hp', _⟩ | ⟨_, hid, _⟩
+      · rw [hp] at hp'; cases hp'
+      · simpa using hid
+    refine ⟨hid, ?_, fun hf => hid ▸ freshId_not_stored hf⟩
+    rcases add_shape s "" x now with ⟨e, he, _⟩ | ⟨id', fact, hok, ha⟩
+    · rw [he] at h; cases h
+    · rw [hok] at h; injection h with h; subst h
+      rw [ha.fresh, hid]; simp
+
+/-- **Generated ids stay fresh.** In every state reachable by a history whose caller-supplied ids never have the
+shape `fresh#n` of a generated id, no stored id is `fresh#n` with `n ≥` the fresh counter — so a generated id never
+overwrites a stored fact. (The real code draws a UUID; the model's counter needs the side condition.) -/
+theorem reachable_fresh (k : Kind) (ops : List StOp) (hu : ∀ op, op ∈ ops → op.userIds) :
+    FreshOK (St.run { kind := k } ops) :=
+  run_freshOK (fun e he => by simp at he) ops hu
+
+/-! ## non-vacuity -/
+
+def searchOps : List StOp :=
+  [StOp.rem "q" 0, StOp.add "a" [("deleteWith", J.arr [.str "b"]), ("n", .num 3)] 0, StOp.add "b" [("deleteWith", J.arr [.str "b", .str "zz"])] 0,
+   StOp.add "" [("x", J.num 1)] 0, StOp.add "a" [("deleteWith", J.arr [.str "c"])] 0,
+   StOp.add "p" [("!color", .str "red"), ("id", .str "b")] 0]
+
+/-- the hypotheses of the search theorems hold on a non-trivial reachable state of each kind for the pattern
+`{"deleteWith":["b"]}` (here the C05 hypothesis is *proved*, `matcherSound_depPat`), so the searches of both kinds
+return the specification's answer; the history overwrites `a`, generates an id and stores a property fact -/
+example (k : Kind) :
+    WF (St.run { kind := k } searchOps) ∧ NoneExpired (St.run { kind := k } searchOps) 0 ∧
+    TermOK (depPat "b") = true ∧ MatcherSoundOn (St.run { kind := k } searchOps).facts (depPat "b") ∧
+    (St.run { kind := k } searchOps).facts.map (·.1) = ["a", "b", "fresh#0", "!b.color"] ∧
+    FreshOK (St.run { kind := k } searchOps) ∧
+    (∃ R, specSearch (St.run { kind := k } searchOps).facts (depPat "b") 0 = .ok R) := by
+  refine ⟨run_wf (wf_empty k) _, noneExpired_of_check (by cases k <;> decide +kernel), by decide +kernel,
+    (matcherSound_depPat "b" (by decide +kernel)).on _, by cases k <;> decide +kernel,
+    reachable_fresh k _ ?_, specSearch_depPat_ok _ "b" (by decide +kernel) 0⟩
+  · intro op hop
+    simp only [searchOps, List.mem_cons, List.not_mem_nil, or_false] at hop
+    rcases hop with rfl | rfl | rfl | rfl | rfl | rfl <;> simp only [StOp.userIds] <;> intro n h <;>
+      (have := congrArg String.toList h; simp [String.toList_append] at this)
+
+/-- the hypotheses of `pmv_terms_subset` are satisfiable: the cascade pattern lies over a fact naming `b` -/
+example : ∃ σ, pmv σ (.obj (depPat "b")) (.obj [("deleteWith", J.arr [.str "b", .str "zz"])]) = true ∧
+    TermOK (depPat "b") = true := by
+  obtain ⟨σ, hσ⟩ := matcherSound_depPat "b" (by decide +kernel) [("deleteWith", J.arr [.str "b", .str "zz"])] [[]]
+    (by rw [matchesJ_depPat "b" (by decide +kernel)]; rfl) (by simp)
+  exact ⟨σ, hσ, by decide +kernel⟩
